@@ -33,6 +33,7 @@ type zzPipe struct {
 	closed  bool
 	pending []byte
 	out     []byte
+	stalled bool // the peer does not read (or never finishes its handshake): a write stays in the socket until it is closed
 }
 
 func zzNewPipe(id byte) *zzPipe {
@@ -58,6 +59,10 @@ func (c *zzPipe) Read(b []byte) (int, error) {
 
 func (c *zzPipe) Write(b []byte) (int, error) {
 	if c.closed {
+		return 0, net.ErrClosed
+	}
+	if c.stalled {
+		<-c.closedC
 		return 0, net.ErrClosed
 	}
 	c.out = append(c.out, b...)
@@ -279,6 +284,59 @@ func zzC10_tcp_server() {
 	}
 	srv.Stop()
 	symCover("stopped")
+}
+
+// connection set-up must not hold up the accept loop: the server announces itself to every new connection (CSM; on
+// a secure listener this first write also completes the handshake). A peer that connects and then does not read
+// stalls only its own set-up - the next peer is accepted and served, Stop still ends Serve
+func zzC10_tcp_server_setup_stall() {
+	srv := New(zzOpt(func(c *Config) {
+		c.Ctx = context.Background()
+		c.MaxMessageSize = 64
+		c.Errors = func(error) {}
+		c.PeriodicRunner = func(f func(now time.Time) bool) {}
+		c.MessagePool = pool.New(0, 1024)
+		n := 0
+		c.GetToken = func() (message.Token, error) { n++; return message.Token{0xEE, byte(n)}, nil }
+		c.BlockwiseEnable = false
+		c.LimitClientParallelRequests = 4
+		c.LimitClientEndpointParallelRequests = 4
+		c.ReceivedMessageQueueSize = 2
+		c.ConnectionCacheSize = 64
+		c.DisableTCPSignalMessageCSM = false
+		c.DisablePeerTCPSignalMessageCSMs = true
+		c.CreateInactivityMonitor = nil
+		c.Handler = func(w *responsewriter.ResponseWriter[*client.Conn], r *pool.Message) {
+			_ = w.SetResponse(codes.Content, message.AppOctets, bytes.NewReader([]byte{7}))
+		}
+	}))
+	l := &zzListener{conns: make(chan net.Conn, 4), errs: make(chan error, 2), closedC: make(chan struct{})}
+	served := false
+	go func() {
+		_ = srv.Serve(l)
+		served = true
+	}()
+	symSchedCanonical(true)
+	bad, good := zzNewPipe(2), zzNewPipe(1)
+	bad.stalled = true
+	l.conns <- net.Conn(bad)
+	symIdle()
+	l.conns <- net.Conn(good)
+	good.in <- zzFrame(codes.GET, message.Token{0xA1}, []byte{1})
+	symIdle()
+	symCover("peer-behind-a-stalled-setup")
+	rs, ok := zzReplies(good.out)
+	answered := false
+	for _, r := range rs {
+		if r.code == codes.Content && bytes.Equal(r.token, []byte{0xA1}) {
+			answered = true
+		}
+	}
+	symAssert(ok && answered, "a peer that connects while another peer's connection set-up is stalled is accepted and served")
+	srv.Stop()
+	symWaitUntil(func() bool { return served })
+	symIdle()
+	symAssert(good.closed && bad.closed, "Stop closes every socket, also the one whose set-up never finished")
 }
 
 func zzC10_selftest() {
